@@ -23,6 +23,11 @@
 #include <set>
 #include <vector>
 #include <cmath>
+#ifdef PARMCB_VERIF
+#include <cstdlib>
+#include <sstream>
+#include <iomanip>
+#endif
 
 #include <parmcb/config.hpp>
 #include <parmcb/forestindex.hpp>
@@ -109,6 +114,19 @@ namespace parmcb {
 #ifdef PARMCB_LOGGING
         std::cout << "Rank " << world.rank() << " received " << candidate_cycles.size() << " candidates" << std::endl;
 #endif
+#ifdef PARMCB_VERIF
+        if (std::getenv("PARMCB_VERIF_MPI_TRACE") != nullptr) {
+            // verification hook (only when PARMCB_VERIF_MPI_TRACE is set in the environment):
+            // the chunk this rank received, as (root vertex, forest index of the edge) pairs
+            std::ostringstream verif_line;
+            verif_line << "VERIF-MPITREES CHUNK " << world.rank() << " " << candidate_cycles.size();
+            for (const auto &t : candidate_cycles) {
+                verif_line << " " << t.v << " " << t.e;
+            }
+            verif_line << "\n";
+            std::cerr << verif_line.str();
+        }
+#endif
 
         /*
          * Group local candidate cycles per vertex
@@ -145,6 +163,21 @@ namespace parmcb {
                 return a.weight() < b.weight();
             });
         }
+#ifdef PARMCB_VERIF
+        if (std::getenv("PARMCB_VERIF_MPI_TRACE") != nullptr) {
+            // verification hook: the local candidates in the order left by the sort:
+            // (tree id, source of that tree, forest index of the edge, recorded weight)
+            std::ostringstream verif_line;
+            verif_line << std::setprecision(17);
+            verif_line << "VERIF-MPITREES SORTED " << world.rank() << " " << cycles.size();
+            for (const auto &c : cycles) {
+                verif_line << " " << c.tree() << " " << trees.at(c.tree()).source() << " " << forest_index(c.edge()) << " "
+                        << c.weight();
+            }
+            verif_line << "\n";
+            std::cerr << verif_line.str();
+        }
+#endif
         ShortestOddCycleLookup<Graph, WeightMap, ParallelUsingTBB> cycle_lookup(g, weight_map, trees, cycles,
                 sorted_cycles);
 
@@ -181,6 +214,20 @@ namespace parmcb {
             SerializableMinOddCycle<Graph, WeightMap> local_min_odd_cycle(best_local_cycle_as_indices,
                     std::get<1>(best_local_cycle), std::get<2>(best_local_cycle));
             SerializableMinOddCycle<Graph, WeightMap> global_min_odd_cycle;
+#ifdef PARMCB_VERIF
+            if (std::getenv("PARMCB_VERIF_MPI_TRACE") != nullptr) {
+                // verification hook: this rank's local minimum of phase k (rank, k, exists, weight, edge indices)
+                std::ostringstream verif_line;
+                verif_line << std::setprecision(17);
+                verif_line << "VERIF-MPITREES LOCAL " << world.rank() << " " << k << " " << (local_min_odd_cycle.exists ? 1 : 0)
+                        << " " << local_min_odd_cycle.weight << " " << local_min_odd_cycle.edges.size();
+                for (const auto &e : local_min_odd_cycle.edges) {
+                    verif_line << " " << e;
+                }
+                verif_line << "\n";
+                std::cerr << verif_line.str();
+            }
+#endif
 
             boost::mpi::reduce(world, local_min_odd_cycle, global_min_odd_cycle,
                     SerializableMinOddCycleMinOp<Graph, WeightMap>(), 0);
